@@ -1,4 +1,5 @@
 import ast
+import math
 from enum import Enum
 from enum import Flag
 from functools import singledispatch
@@ -119,6 +120,14 @@ def _(value: Flag):
     return " | ".join(
         f"{name}.{flag.name}" for flag in type(value) if flag in value
     ) or f"{name}(0)"
+
+
+@customize_repr
+def _(value: float):
+    if math.isinf(value):
+        # repr() gives the bare name inf which is not valid python code
+        return f'float("{real_repr(value)}")'
+    return real_repr(value)
 
 
 def sort_set_values(set_values):
